@@ -239,8 +239,11 @@ class Fn:
         return [i for i, b in enumerate(self.blocks) if b["t"][0] == "ret"]
 
     def assigns(self):
-        """yield (block, idx, place, rvalue, line, macros)"""
+        """yield (block, idx, place, rvalue, line, macros) for blocks reachable over normal (non-unwind) edges"""
+        reach = self.reachable_blocks()
         for bi, b in enumerate(self.blocks):
+            if bi not in reach:
+                continue
             for si, s in enumerate(b["s"]):
                 if s[0] == "a":
                     yield bi, si, s[1], s[2], s[3], (s[4] if len(s) > 4 else [])
